@@ -28,8 +28,15 @@ def inline_builtin(expr: Expression, rules: Mapping[str, Rule]) -> Expression:  
 
 def inline_silent_rules(expr: Expression, rules: Mapping[str, Rule]) -> Expression:
     """Inline silent rules."""
-    if isinstance(expr, Identifier):
-        rule = rules[expr.value]
-        if rule.modifier & SILENT:
+    if isinstance(expr, Identifier) and expr.tag is None:
+        rule = rules.get(expr.value)
+        # Only plain silent rules are transparent. `_@`-style modifiers and the
+        # implicitly atomic WHITESPACE and COMMENT change how their body is matched,
+        # and a tagged reference needs the rule call to deliver its tag.
+        if (
+            rule
+            and rule.modifier == SILENT
+            and rule.name not in ("WHITESPACE", "COMMENT")
+        ):
             return rule.expression
     return expr
